@@ -53,7 +53,7 @@ VspecT = Sum("vspec", "Json", {})
 _VspecR = Rec("vspec", "d_vspec", lambda: VspecT)
 VspecT.ctors.update({"VInt": ZZ, "VList": List(_VspecR), "VDict": Tup(Nat, _VspecR, Nat)})
 DomainT = Sum("domain", "Json", {"DFinite": List(JsonT), "DRange": Nat})
-FactorWT = Sum("factor_w", "JsonCheck", {"WConstant": JsonT, "WFinite": Tup(List(NumT), List(Nat), List(AxisT), NumT)})
+FactorWT = Sum("factor_w", "JsonCheck", {"WConstant": JsonT, "WFinite": Tup(TensT, List(Nat), List(AxisT), NumT)})
 FggT = Tup(HrgT, List(Tup(StrT, DomainT)), List(Tup(StrT, FactorWT)))
 PermsT = List(Tup(List(Nat), List(Nat)))
 RtObsT = Sum("rt_obs", "JsonCheck", {"ObsToErr": ErrT, "ObsFromErr": Tup(JsonT, ErrT),
@@ -182,7 +182,7 @@ def flatten(x):
 def ptw(w):
     """a live PatternedTensor -> WFinite payload"""
     phys = w.physical
-    return ([numw(float(v)) for v in flatten(phys.tolist())], [int(n) for n in phys.size()],
+    return (tensw(phys.tolist()), [int(n) for n in phys.size()],
             [axisw(e, w.paxes) for e in w.vaxes], numw(float(w.default)))
 
 def domw(d):
